@@ -112,3 +112,48 @@ def sphere(rng, n):
     ra = rng.uniform(0, 360, size=n)
     dec = np.degrees(np.arcsin(rng.uniform(-1, 1, size=n)))
     return ra, dec
+
+
+# --- memory layouts ----------------------------------------------------------
+
+VIEW_KINDS = ["strided", "negstride", "recfield", "2dcol", "offset-slice"]
+
+
+def as_view(rng, a, kinds=None):
+    """The same values as `a` (1-d, any dtype) presented as a non-contiguous or otherwise unusual view: every other
+    element of a larger buffer, a negatively strided view, a field of a record array, a column of a 2-d array, or a
+    slice starting inside a larger buffer.  Returns (view, kind)."""
+    a = np.asarray(a)
+    if a.ndim != 1 or a.size == 0:
+        return a, "as-is"
+    kind = (kinds or VIEW_KINDS)[int(rng.integers(0, len(kinds or VIEW_KINDS)))]
+    if kind == "strided":
+        big = np.empty(a.size * 2, dtype=a.dtype)
+        big[1::2] = a[::-1]
+        big[::2] = a
+        return big[::2], kind
+    if kind == "negstride":
+        return np.ascontiguousarray(a[::-1])[::-1], kind
+    if kind == "recfield":
+        rec = np.zeros(a.size, dtype=[("pad", "i2"), ("v", a.dtype), ("tail", "S3")])
+        rec["v"] = a
+        rec["pad"] = 77
+        return rec["v"], kind
+    if kind == "2dcol":
+        m = np.empty((a.size, 3), dtype=a.dtype)
+        m[:, 0] = a[::-1]
+        m[:, 2] = a[::-1]
+        m[:, 1] = a
+        return m[:, 1], kind
+    big = np.empty(a.size + 5, dtype=a.dtype)
+    big[:3] = a[:1]
+    big[-2:] = a[-1:]
+    big[3:-2] = a
+    return big[3:-2], kind
+
+
+def maybe_view(rng, a, p=0.3, kinds=None):
+    """as_view with probability p, else the array itself"""
+    if isinstance(a, np.ndarray) and a.ndim == 1 and a.size and rng.random() < p:
+        return as_view(rng, a, kinds)[0]
+    return a
